@@ -36,7 +36,7 @@ CONSTANTS Vers,        \* subset of {"sasl","sasl2"}
           MaxHist      \* bound on behaviour length (generator configurations only)
 
 VARIABLES c,          \* the connection: [phase, authed, res, st, ver, xuser, b2]
-          pending,    \* checker requests not yet answered: [op, user, ok, stale]
+          pending,    \* checker requests not yet answered: [op, user, ok, stale, ver]
           routes,     \* full JIDs registered for routing (QXmppServerPrivate::incomingClientsByJid)
           approved,   \* ghost: users for whom the checker/digest verification approved an exchange on this connection
           proved,     \* ghost: users whose right password the client has presented so far
@@ -123,7 +123,7 @@ Open(dom) ==
 (* --- <auth/> / <authenticate/> ------------------------------------------- *)
 Auth(v, m, cr, b) ==
     LET h == [a |-> "Auth", ver |-> v, mech |-> m, cred |-> cr, b2 |-> b]
-        ask == Append(StaleAll(pending), [op |-> "check", user |-> UserOf(cr), ok |-> Right(cr), stale |-> FALSE])
+        ask == Append(StaleAll(pending), [op |-> "check", user |-> UserOf(cr), ok |-> Right(cr), stale |-> FALSE, ver |-> v])
     IN
     /\ c.phase = "open"
     /\ (b => v = "sasl2") /\ (m # "PLAIN" => cr = "empty")
@@ -147,13 +147,12 @@ Response(v, cr) ==
     IN
     /\ c.phase = "open"
     /\ CASE ~mine -> CloseWith(h, <<Fail(v)>>)                 \* response without (such an) exchange
-         [] mine /\ c.st = "plainWait" /\ cr = "empty" ->
-                Step(h, c, pending, routes, approved, <<Challenge(v)>>, <<>>, <<>>)
-         [] mine /\ c.st = "plainWait" /\ cr = "malformed" -> CloseWith(h, <<Fail(v)>>)
+         \* (an empty response makes the PLAIN object ask again, which the response branch treats as a failure)
+         [] mine /\ c.st = "plainWait" /\ cr \in {"empty", "malformed"} -> CloseWith(h, <<Fail(v)>>)
          [] mine /\ c.st = "plainWait" /\ cr \notin {"empty", "malformed"} ->
                 /\ Len(pending) < MaxPending
                 /\ Step(h, [c EXCEPT !.st = "check", !.xuser = UserOf(cr)],
-                        Append(pending, [op |-> "check", user |-> UserOf(cr), ok |-> Right(cr), stale |-> FALSE]),
+                        Append(pending, [op |-> "check", user |-> UserOf(cr), ok |-> Right(cr), stale |-> FALSE, ver |-> c.ver]),
                         routes, approved, <<>>, <<>>, <<>>)
          [] mine /\ c.st = "check" -> CloseWith(h, <<Fail(v)>>)   \* PLAIN server object is past its only step
          [] mine /\ c.st \in {"digestWait", "digestCheck"} /\ cr \in {"empty", "malformed"} -> CloseWith(h, <<Fail(v)>>)
@@ -161,7 +160,7 @@ Response(v, cr) ==
                 \* the digest of the named user is requested; verification happens when it arrives
                 /\ Len(pending) < MaxPending
                 /\ Step(h, [c EXCEPT !.st = "digestCheck"],
-                        Append(pending, [op |-> "digest", user |-> UserOf(cr), ok |-> Right(cr), stale |-> FALSE]),
+                        Append(pending, [op |-> "digest", user |-> UserOf(cr), ok |-> Right(cr), stale |-> FALSE, ver |-> c.ver]),
                         routes, approved, <<>>, <<>>, <<>>)
          [] mine /\ c.st = "digestFinal" -> Accept(h, c.xuser, pending)   \* client acknowledges rspauth
 
@@ -177,7 +176,7 @@ Reply(i) ==
          [] ~e.stale /\ e.op = "check" /\ e.ok  -> Accept(h, e.user, p2)
          [] ~e.stale /\ e.op = "check" /\ ~e.ok ->
                 Step(h, [Idle(c) EXCEPT !.phase = "closed"], p2, routes \ {J(c.authed, c.res)}, approved,
-                     <<Fail(c.ver), E("close")>>, <<>>,
+                     <<Fail(e.ver), E("close")>>, <<>>,
                      IF c.authed # "" THEN <<[s |-> "disconnected", j |-> J(c.authed, c.res)]>> ELSE <<>>)
          [] ~e.stale /\ e.op = "digest" /\ e.ok /\ c.st = "digestCheck" ->
                 \* response verified against the digest: rspauth challenge
@@ -185,18 +184,20 @@ Reply(i) ==
                      <<Challenge(c.ver)>>, <<>>, <<>>)
          [] ~e.stale /\ e.op = "digest" /\ ~(e.ok /\ c.st = "digestCheck") ->
                 Step(h, [Idle(c) EXCEPT !.phase = "closed"], p2, routes \ {J(c.authed, c.res)}, approved,
-                     <<Fail(c.ver), E("close")>>, <<>>,
+                     <<Fail(e.ver), E("close")>>, <<>>,
                      IF c.authed # "" THEN <<[s |-> "disconnected", j |-> J(c.authed, c.res)]>> ELSE <<>>)
 
 (* --- <abort/> --------------------------------------------------------------- *)
+\* As built: the SASL namespace has no abort handler at all; the SASL 2 handler answers
+\* <failure><aborted/></failure> and forgets the <authenticate/> request (with its inline bind
+\* request) but neither the SASL server object nor a pending checker reply: the exchange can
+\* still complete.  Harmless for C16 (the verdict still decides), so modelled as it is.
 Abort(v) ==
     LET h == [a |-> "Abort", ver |-> v] IN
     /\ c.phase = "open"
     /\ IF v = "sasl"
-       THEN Step(h, c, pending, routes, approved, <<>>, <<>>, <<>>)       \* not handled by the server at all
-       ELSE IF c.st # "none" /\ c.ver = "sasl2"
-            THEN Step(h, Idle(c), StaleAll(pending), routes, approved, <<Fail(v)>>, <<>>, <<>>)
-            ELSE Step(h, c, pending, routes, approved, <<Fail(v)>>, <<>>, <<>>)
+       THEN Step(h, c, pending, routes, approved, <<>>, <<>>, <<>>)
+       ELSE Step(h, [c EXCEPT !.b2 = FALSE], pending, routes, approved, <<Fail(v)>>, <<>>, <<>>)
 
 (* --- resource binding, session --------------------------------------------- *)
 Bind(r) ==
@@ -230,11 +231,12 @@ Stanza(k, f, t) ==
          [] c.authed # "" /\ Legit(f) /\ t \in {"domain", "absent"} ->
                 \* the server's own answer (iq error) is routed to the stamped from: it arrives if that is registered
                 Step(h, c, pending, routes, approved,
-                     IF k = "iq" /\ c.res # "" THEN <<El("iq", "error", NoJ)>> ELSE <<>>, <<>>, <<>>)
+                     IF k = "iq" /\ (\E j \in routes : j.u = c.authed) THEN <<El("iq", "error", NoJ)>> ELSE <<>>, <<>>, <<>>)
 
 Next ==
     \/ \E dom \in {"ok", "wrong"} : Open(dom)
-    \/ \E v \in Vers, m \in Mechs, cr \in Creds, b \in BOOLEAN : Auth(v, m, cr, b)
+    \/ \E v \in Vers, m \in Mechs, b \in BOOLEAN :
+          \E cr \in (IF m = "PLAIN" THEN Creds ELSE {"empty"}) : Auth(v, m, cr, b)   \* only PLAIN has an initial response
     \/ \E v \in Vers, cr \in Creds : Response(v, cr)
     \/ \E i \in 1..MaxPending : Reply(i)
     \/ \E v \in Vers : Abort(v)
@@ -279,5 +281,6 @@ Reinit ==
     /\ out' = <<>> /\ dlv' = <<>> /\ sig' = <<>> /\ hist' = <<>>
 
 Bound == Len(hist) <= MaxHist
+GenView == <<c, pending, routes>>   \* generator configurations: the mechanism state without the ghosts
 View  == mvars      \* hist and the outputs of the last step are observation variables: hidden from state identity
 =============================================================================
